@@ -70,7 +70,7 @@ def exec_PROG(t):
         cfg = dict(rounding=rng.choice(ROUNDS), overflow=rng.choice(OVFS), shifting=rng.choice(['expand', 'trunc', 'keep']),
                    op_sizing=rng.choice(['optimal', 'same', 'largest', 'smallest']), const_op_sizing=rng.choice(['optimal', 'same', 'largest', 'smallest']),
                    op_method=rng.choice(['raw', 'repr']), op_input_size=rng.choice(['same', 'best']))
-        if rng.random() < 0.15:
+        if rng.random() < 0.15 and n <= 16:      # scaled objects only where the affine limits are exact doubles (C17's domain)
             cfg['scale'] = rng.choice([2, 0.5, -1, 3]); cfg['bias'] = rng.choice([0, 1, -2, 0.25])
         v = vals[0] if k == 0 else (np.array(vals).reshape(2, 2) if k == 4 and rng.random() < 0.5 else vals)
         return Fxp(v, s, n, f, **cfg)
